@@ -369,7 +369,7 @@ class Daemon(object):
         except Exception as x:
             log.debug("handshake failed, reason:", exc_info=True)
             serializer = serializers.serializers_by_id[serializer_id]
-            data = serializer.dumps(str(x))
+            data = serializer.dumps(_encodable(str(x)))   # (the reason may hold text that cannot be encoded as it is)
             msgtype = protocol.MSG_CONNECTFAIL
         # We need a minimal amount of response data or the socket will remain blocked
         # on some systems... (messages smaller than 40 bytes)
